@@ -1175,7 +1175,8 @@ func R08(group string) Rule {
 			la := Locks(P)
 			handover := false
 			// the per-row callback (or a helper it calls: `yieldLock(done)`) releases and re-takes the lock
-			for _, f := range core.Family(fn) {
+			// (a function literal, a method value `pass.visit`, or something either of them calls)
+			for _, f := range P.Scope(fn, func(f *ssa.Function) bool { return core.PkgPathOf(f) != core.PkgBttest }) {
 				if f != fn && la.Breaks[f][tableLock] {
 					handover = true
 				}
